@@ -31,6 +31,7 @@ import QV.Model.Density
 import QV.Lemmas.Basic
 import QV.Lemmas.Hilbert
 import QV.Lemmas.Density
+import QV.Lemmas.PyFlag
 import QV.Props.C05
 
 namespace QV.Props
@@ -545,6 +546,49 @@ theorem C02_call_forms (am ph : PRBM ℝ n h a) {B B' : ℕ} (vs vs' : Fin B →
   refine ⟨fun _ _ => rfl, fun _ => rfl, fun v vp => ?_, fun i => ?_⟩
   · simp only [rhoVec, rho, PRBM.gammaVec_eq_gamma]
   · exact C02_rhoDiag_eq_rho_diag am ph (vs i)
+
+/-- **C02.6e** the call forms for the OBJECT passed as `expand` (documented as `bool`; `1` / `0`, `numpy.bool_` values, 0-dim bool
+arrays / tensors are what callers also pass).  `rho` hands the same object to `pi`, `gamma(+1)` and `gamma(-1)`, each of which tests
+its truth value, and takes the `vp=None` short-cut only for the singleton `False`; for EVERY object the result is defined (the three
+factors agree on the layout) and is the full matrix `[i,j] ↦ rho v_i v'_j` exactly when the object is truthy, the paired vector
+`[i] ↦ rho v_i v'_i` otherwise (with `v' = v` when `vp=None`).  (In the model of a slip that tests `expand is True` inside `gamma`
+only, `rhoFlagged … (PyFlag.npBool true) …` is `none`: a vector broadcast against a matrix.) -/
+theorem C02_expand_flag (am ph : PRBM ℝ n h a) (expand : PyFlag) {B : ℕ} (vs : Fin B → Fin n → ℝ)
+    (vps : Option (Fin B → Fin n → ℝ)) :
+    rhoFlagged am ph expand vs vps
+        = some (if expand.truthy then RhoOut.matrix (fun i j => rho am ph (vs i) ((vps.getD vs) j))
+                else RhoOut.vector (fun i => rho am ph (vs i) ((vps.getD vs) i)))
+      ∧ gammaForm expand = (if expand.truthy then CallForm.matrix else CallForm.paired)
+      ∧ piForm expand = gammaForm expand := by
+  refine ⟨?_, rfl, rfl⟩
+  unfold rhoFlagged rhoForm piForm gammaForm
+  by_cases hF : expand.isFalseSingleton = true
+  · have ht := PyFlag.not_truthy_of_isFalseSingleton hF
+    cases vps with
+    | none =>
+      simp only [hF, ht, Option.isNone_none, Bool.and_self, if_true, Bool.false_eq_true, if_false, Option.getD_none]
+      congr 2
+      funext i
+      exact C02_rhoDiag_eq_rho_diag am ph (vs i)
+    | some ws => simp [ht]; rfl
+  · cases ht : expand.truthy <;> simp [hF] <;> rfl
+
+/-- **C02.6f** … and therefore, whatever object is passed, every returned element is the partial trace over the auxiliary units
+of the purified state (under the guard of `C02_rho_eq_partial_trace`). -/
+theorem C02_expand_flag_partial_trace (am ph : PRBM ℝ n h a) (expand : PyFlag) {B : ℕ} (vs : Fin B → Fin n → ℝ)
+    (vps : Option (Fin B → Fin n → ℝ)) (hz : ∀ i j, NZ am ph (vs i) ((vps.getD vs) j)) :
+    (expand.truthy = true → ∃ m, rhoFlagged am ph expand vs vps = some (.matrix m) ∧
+        ∀ i j, (⟨(m i j).1, (m i j).2⟩ : ℂ)
+          = ∑ aux : Fin a → Bool, purAmp am ph (vs i) aux * conj (purAmp am ph ((vps.getD vs) j) aux))
+    ∧ (expand.truthy = false → ∃ p, rhoFlagged am ph expand vs vps = some (.vector p) ∧
+        ∀ i, (⟨(p i).1, (p i).2⟩ : ℂ)
+          = ∑ aux : Fin a → Bool, purAmp am ph (vs i) aux * conj (purAmp am ph ((vps.getD vs) i) aux)) := by
+  have hf := (C02_expand_flag am ph expand vs vps).1
+  refine ⟨fun ht => ?_, fun ht => ?_⟩
+  · rw [ht] at hf
+    exact ⟨_, hf, fun i j => C02_rho_eq_partial_trace am ph (vs i) ((vps.getD vs) j) (hz i j)⟩
+  · rw [ht] at hf
+    exact ⟨_, hf, fun i => C02_rho_eq_partial_trace am ph (vs i) ((vps.getD vs) i) (hz i i)⟩
 
 /-! ### Non-vacuity -/
 
